@@ -566,7 +566,9 @@ fn file_case(report: &Report, rt: &tokio::runtime::Runtime, seed: u64, i: u64) {
                     c["got"] = json!(got.get(pos).map(|c| c.render()));
                     c["n_expected"] = json!(want.len());
                     c["n_got"] = json!(got.len());
-                    report.violation(&format!("file-{kind}-{cls}-{layout}"), "random access / scan of a nested list column returned other items than the requested rows hold", c);
+                    // rows but no leaf item + empty child arrays with validity buffers: known root cause (C)
+                    let sig = if leaf_items == 0 && leaf_has_validity { "file-zero-item-page-with-child-validity-values".to_string() } else { format!("file-{kind}-{cls}-{layout}") };
+                    report.violation(&sig, "random access / scan of a nested list column returned other items than the requested rows hold", c);
                     break;
                 }
             }
